@@ -50,9 +50,9 @@ def plan(tier, seed):
         specs.append({"name": "sweep%02d" % i, "kind": "sweep", "shard": i, "combos": combos[i::n_sh], "reps": reps, "timeout": 7000})
     specs.append({"name": "breaks", "kind": "breaks", "shard": 20, "cases": 4000 if tier == "quick" else 60000, "timeout": 7000})
     for i in range(6):
-        specs.append({"name": "fix%02d" % i, "kind": "fix", "shard": 30 + i, "cases": 40 if tier == "quick" else 400, "timeout": 7000})
+        specs.append({"name": "fix%02d" % i, "kind": "fix", "shard": 30 + i, "cases": 120 if tier == "quick" else 600, "timeout": 7000})
     for i in range(4):
-        specs.append({"name": "prog%02d" % i, "kind": "prog", "shard": 50 + i, "datasets": 12 if tier == "quick" else 80, "timeout": 7000})
+        specs.append({"name": "prog%02d" % i, "kind": "prog", "shard": 50 + i, "datasets": 24 if tier == "quick" else 100, "timeout": 7000})
     return specs
 
 
